@@ -40,6 +40,11 @@ func (f *vFunc) expectInputs() []vIn {
 func (f *vFunc) expectOutputs() []vIn {
 	var out []vIn
 	add := func(r *vResult) {
+		if r.whole {
+			// a decorator replacing a whole group declares (and dig reports) the slice type
+			out = append(out, vIn{t: r.goType(), group: r.group})
+			return
+		}
 		for _, k := range r.keys() {
 			out = append(out, vIn{t: k.t, name: k.name, group: k.group})
 		}
@@ -127,6 +132,10 @@ func verifC18run(p *vProfile) {
 			verifWitness("rejected-info-untouched")
 		} else {
 			h.assert("C18.sameid", info2.ID == info.ID)
+			// an accepted call rewrites a reused (pre-populated) Info struct completely
+			h.checkInputs(f, info2.Inputs)
+			h.checkOutputs(f, info2.Outputs)
+			verifWitness("reused-info")
 		}
 	} else {
 		h.assert("C18.untouched", info.ID == 0 && info.Inputs == nil && info.Outputs == nil)
